@@ -101,7 +101,7 @@ def error_ellipse(vcv):
     :return: orientation, the orientation of the error ellipse
     """
     z = sqrt((vcv[0, 0] - vcv[1, 1])**2 + 4 * vcv[0, 1]**2)
-    a = sqrt(0.5 * (vcv[0, 0] + vcv[1, 1] + z))
+    a = sqrt(max(0.5 * (vcv[0, 0] + vcv[1, 1] + z), 0.0))
     b = sqrt(max(0.5 * (vcv[0, 0] + vcv[1, 1] - z), 0.0))
     orientation = 90 - degrees(0.5 * atan2((2 * vcv[0, 1]),
                                            (vcv[0, 0] - vcv[1, 1])))
